@@ -94,6 +94,9 @@ struct Problem {
     kind: Kind,
     eps: f64,
     shrinking: bool,
+    /// memory layout of the training records: 0 standard, 1 column-major, 2 rows stored back to
+    /// front behind a negative row stride
+    layout: u8,
 }
 
 struct Published {
@@ -126,6 +129,21 @@ fn apply_kernel<F: Fl, T>(p: linfa_svm::SvmParams<F, T>, k: Kern) -> linfa_svm::
 fn run_fit<F: Fl>(pb: &Problem, want_pr: bool) -> Result<Published, String> {
     let x: Array2<F> = to_f(&pb.x);
     let fresh: Array2<F> = to_f(&pb.fresh);
+    // the same logical matrix in the requested memory layout (predictions below use standard layout)
+    let x_train: Array2<F> = match pb.layout {
+        1 => {
+            let mut t = Array2::<F>::zeros((x.ncols(), x.nrows()));
+            t.assign(&x.t());
+            t.reversed_axes()
+        }
+        2 => {
+            let mut r = x.slice(ndarray::s![..;-1, ..]).to_owned();
+            r.invert_axis(ndarray::Axis(0));
+            r
+        }
+        _ => x.clone(),
+    };
+    debug_assert!(x_train == x);
     let mut all = Array2::<F>::zeros((x.nrows() + fresh.nrows(), x.ncols()));
     all.slice_mut(ndarray::s![..x.nrows(), ..]).assign(&x);
     all.slice_mut(ndarray::s![x.nrows().., ..]).assign(&fresh);
@@ -154,7 +172,7 @@ fn run_fit<F: Fl>(pb: &Problem, want_pr: bool) -> Result<Published, String> {
     }
     match pb.kind {
         Kind::CSvc { .. } | Kind::NuSvc { .. } => {
-            let ds = Dataset::new(x.clone(), Array1::from(pb.yb.clone()));
+            let ds = Dataset::new(x_train.clone(), Array1::from(pb.yb.clone()));
             macro_rules! params {
                 ($t:ty) => {{
                     let p = Svm::<F, $t>::params().eps(eps).shrinking(pb.shrinking);
@@ -188,7 +206,7 @@ fn run_fit<F: Fl>(pb: &Problem, want_pr: bool) -> Result<Published, String> {
             }
         }
         Kind::OneClass { nu } => {
-            let ds = DatasetBase::from(x.clone());
+            let ds = DatasetBase::from(x_train.clone());
             let p = Svm::<F, Pr>::params().eps(eps).shrinking(pb.shrinking).nu_weight(F::cast(nu));
             let p = apply_kernel(p, pb.kern);
             let mut m: Svm<F, bool> = p.fit(&ds).map_err(|e| format!("fit error: {e}"))?;
@@ -202,7 +220,7 @@ fn run_fit<F: Fl>(pb: &Problem, want_pr: bool) -> Result<Published, String> {
         }
         Kind::EpsSvr { .. } | Kind::NuSvr { .. } => {
             let y: Array1<F> = Array1::from_iter(pb.yr.iter().map(|v| F::cast(*v)));
-            let ds = Dataset::new(x.clone(), y);
+            let ds = Dataset::new(x_train.clone(), y);
             let p = Svm::<F, F>::params().eps(eps).shrinking(pb.shrinking);
             let p = apply_kernel(p, pb.kern);
             let p = match pb.kind {
@@ -680,7 +698,9 @@ fn one_case(c: &mut Case, which: usize, shrinking: bool, f32mode: bool, nmax: us
     };
     let eps = eps.max(1e-7 * cmax);
     let want_pr = which <= 1 && c.rng.gen_bool(0.3);
-    let pb = Problem { x, yb, yr, fresh, kern, kind, eps, shrinking };
+    let layout = [0u8, 0, 1, 2][c.rng.gen_range(0..4)];
+    c.note("records_layout", json!(["standard", "column-major", "rows-reversed"][layout as usize]));
+    let pb = Problem { x, yb, yr, fresh, kern, kind, eps, shrinking, layout };
     c.note("kind", json!(format!("{:?}", pb.kind)));
     c.note("kernel", json!(format!("{:?}", pb.kern)));
     c.note("n", json!(n));
